@@ -151,6 +151,13 @@ func (d *driver) ops(w *world.World, depth int, path []string) []engine.Op {
 		dt := dt
 		add(fmt.Sprintf("block(+%s)", dt), func(p []string, res *engine.Result) string { return d.block(dt, p, res) })
 	}
+	// a macro step: the maximum is set to the current supply and a block runs into it (minting
+	// switches itself off) - so that histories continuing from an exhausted cap fit the quick depth
+	add("max(supply)+block(+6s)", func(p []string, res *engine.Result) string {
+		ctx := w.Ctx()
+		w.App.CoinomicsKeeper.SetMaxSupply(ctx, sdk.NewCoin(world.Denom, w.App.BankKeeper.GetSupply(ctx, world.Denom).Amount))
+		return d.block(6*time.Second, p, res)
+	})
 	for _, t := range jumpTargets {
 		t := t
 		add("jump("+t.Format("2006-01-02T15:04:05")+")", func(p []string, res *engine.Result) string {
@@ -425,7 +432,7 @@ func Run(tier string) int {
 	res.Sample(map[string]any{"example_path": []string{"coef(100)", "block(+6s)", "max(supply+mint6s-1)", "block(+6s)"}})
 	return engine.Finish(res, engine.Meta{
 		Property: Prop, Tier: tier, Level: "model_checking", Start: start, Replayer: Replay,
-		Rule: "all sequences <= depth over the alphabet; a block transition is the real app.EndBlock + virtual BeginBlock; non-trivial = a block that minted a non-zero formula amount, distinct by (bonded, coefficient, elapsed, year)",
+		Rule:     "all sequences <= depth over the alphabet; a block transition is the real app.EndBlock + virtual BeginBlock; non-trivial = a block that minted a non-zero formula amount, distinct by (bonded, coefficient, elapsed, year)",
 		Bounds:   map[string]any{"depth": depth, "shards": 16},
 		Alphabet: alpha,
 		Assumptions: []string{
